@@ -187,6 +187,15 @@ pub fn run(args: &Args, rep: &mut Report) {
                             if requested_before && !touched {
                                 rep.violation("not-lowest-first||".to_string(), format!("block {n} handed to peer {peer} although the lower block {m} was waiting during the whole accept call"), replay.clone());
                             }
+                            // the lower block arrived during the call: the peer must have been woken and switched to it, unless it had
+                            // already decided - which is only possible if it could see block n before the lower request arrived
+                            if let Some(r) = evs[call..idx].iter().position(|x| matches!(x, Ev::Requested(k) if *k == m)).map(|i| i + call) {
+                                let untouched = !evs[r..idx].iter().any(|x| matches!(x, Ev::Accepted { n: k, .. } | Ev::CancelIssued(k) | Ev::ReturnedOk(k) | Ev::ReturnedCanceled(k) if *k == m));
+                                let could_decide_before = evs[..r].iter().any(|x| matches!(x, Ev::Announced { peer: p2, range } if p2 == peer && range.1.map_or(false, |l| range.0 <= *n && *n <= l)));
+                                if untouched && !could_decide_before {
+                                    rep.violation("not-lowest-first||woken-late".to_string(), format!("block {n} handed to peer {peer}, which announced it only after the lower block {m} had been requested and was still waiting"), replay.clone());
+                                }
+                            }
                         }
                     }
                 }
